@@ -415,7 +415,10 @@ func c06RewriteSub() *engine.Sub {
 			p := splitEnvelope(orig)
 			origTok, err := token.FromDagCbor(orig)
 			if err != nil {
-				panic(err)
+				// the genuine artefact was produced by ToSealed a moment ago: a decoder that
+				// rejects it is a finding (hidden state in the decode path), not a harness error
+				ctx.Failf(cs, "genuine-artefact-rejected", "the genuine %s/%s token does not decode: %v", cs.Kind, cs.Alg, err)
+				return
 			}
 			origView := ViewOf(origTok)
 			payload := func(entries []kv) datamodel.Node { return nMap(entries...) }
